@@ -57,7 +57,7 @@ _BIG_R = [10 ** 6, 2 ** 40, 2 ** 64]
 
 def budget(tier):
     if tier == "quick":
-        return {"examples": 1600, "shards": 8, "configs": 200}
+        return {"examples": 2400, "shards": 8, "configs": 200}
     return {"examples": 80000, "shards": 16, "configs": 20000}
 
 
@@ -380,7 +380,8 @@ def run_case(case):
             if res["obs"][nm][0] != want:
                 out.fail("listed-seed", {"stream": nm, "r": r, "list": table[nm][:9], "got": res["obs"][nm][0],
                                          "want": want})
-            f = MersenneTwister(want)
+            got = res["obs"][nm][0]
+            f = MersenneTwister(got if type(got) is int else want)
             if [f.next_float().hex() for _ in range(3)] != res["obs"][nm][1:]:
                 out.fail("seed-draws-mismatch:seeded", {"stream": nm, "obs": res["obs"][nm]})
         else:
